@@ -205,6 +205,19 @@ func (j *job) exec(sl *slot) {
 				j.viols = append(j.viols, [2]string{"gocommand-pos", "(GoCommand option set) " + v[1]})
 			}
 		}
+		// round 5: the known finding is exactly "Pos too large by the length of the consumed GO separator"
+		// (C08_lossless_all_options_except). With the offsets corrected that way every clause must hold;
+		// whatever is left is not the known finding.
+		if len(vs) > 0 && !j.r.panicked && j.r.err == nil {
+			if r2, _, ok := unshiftGo(j.input, j.r); !ok {
+				j.viols = append(j.viols, [2]string{"gocommand-other", "(GoCommand option set) a Text is neither at its Pos nor at Pos minus the length of a GO separator that follows it: " + vs[0][1]})
+			} else {
+				for _, v := range oracle(j.os, j.input, r2) {
+					j.viols = append(j.viols, [2]string{"gocommand-other", "(GoCommand option set, offsets corrected by the GO separators) " + v[1]})
+					break
+				}
+			}
+		}
 		return
 	}
 	j.viols = vs
